@@ -1,3 +1,4 @@
+import math
 from typing import Callable
 from ..sim import Environment, ProcessGenerator, Interrupt, SimTime
 
@@ -17,7 +18,7 @@ class Timer:
         self.timeout = timeout
         self.timeout_callback = timeout_callback
         self.start_time = self.env.now
-        self.expire_time = self.start_time + timeout
+        self._arm(timeout)
         self.auto_restart = auto_restart
         self.stopped = False
         if args is None:
@@ -29,6 +30,14 @@ class Timer:
         self.kwargs = kwargs if kwargs is not None else {}
         self.proc = env.process(self.run(env))
 
+    def _arm(self, timeout: SimTime):
+        # expire `timeout` after now. A positive timeout so small that it vanishes
+        # in float rounding (now + timeout == now) expires at the next
+        # representable instant; it used to never expire at all
+        self.expire_time = self.env.now + timeout
+        if timeout > 0 and not self.expire_time > self.env.now:
+            self.expire_time = math.nextafter(self.env.now, math.inf)
+
     def run(self, env: Environment) -> ProcessGenerator:
         try:
             while env.now < self.expire_time:
@@ -36,7 +45,7 @@ class Timer:
                 if not self.stopped:
                     self.timeout_callback(*self.args, **self.kwargs)
                     if self.auto_restart:
-                        self.expire_time = env.now + self.timeout
+                        self._arm(self.timeout)
         except Interrupt as _:
             pass
 
@@ -50,7 +59,7 @@ class Timer:
     def restart(self, timeout: SimTime):
         self.start_time = self.env.now
         self.timeout = timeout
-        self.expire_time = self.start_time + timeout
+        self._arm(timeout)
         if self.env.active_process is self.proc:
             # restarted from the timer's own callback: run() picks up the new
             # expiry when the callback returns (a process cannot interrupt itself)
